@@ -236,10 +236,11 @@ PLANS['C13'] = dict(
     engine='pickling', level='exploration', jobs=lambda tier: both(tier, (4, 25), (16, 400)),
     minimums=lambda t: {'evaluations': 3000, 'cross_process_loads': 1000, 'roundtrips[class-spec:only]': 20,
                         'roundtrips[class-spec:only_after]': 20, 'roundtrips[class-spec:narrow_then_extend]': 20,
-                        'roundtrips[class-provides:provider]': 20, 'roundtrips[instance-provides:nolonger]': 10},
+                        'roundtrips[class-provides:provider]': 20, 'roundtrips[instance-provides:nolonger]': 10,
+                        'roundtrips[class-spec:legacy_attr]': 10, 'roundtrips[builtin-spec:only]': 10},
     rule='Generated module files (interfaces with sentinel attribute names/docstrings; classes in every declaration shape: '
          'plain, decorated, implementer_only, classImplementsOnly after the fact, classImplementsFirst, narrowed-then-extended, '
-         'provider) imported under unique names; every interface, class specification, class provides-declaration, instance '
+         'provider, old-style __implemented__ attribute; built-in / extension types declared with classImplementsOnly) imported under unique names; every interface, class specification, class provides-declaration, instance '
          'provides-declaration (direct/also/after noLongerProvides) and carrier instance is round-tripped through pickle protocols '
          '0-5 in-process (identity / same interfaces, equality and hash where identity is obtained, opcodes and sentinels inspected) '
          'and the bytes are unpickled again in a second process that imports the same module.  Every case is non-trivial; distinct = '
@@ -255,8 +256,8 @@ def _c14_jobs(tier):
 
 PLANS['C14'] = dict(
     engine='adapt', level='exploration', jobs=_c14_jobs, exhaustive=True,
-    minimums=lambda t: {'call_cases': 20000 if t == 'quick' else 80000, 'registry_hook_cases': 200},
-    rule='Complete enumeration of the case product: __conform__ in {absent, returns None, returns value, body raises '
+    minimums=lambda t: {'call_cases': 30000 if t == 'quick' else 120000, 'registry_hook_cases': 200},
+    rule='Complete enumeration of the case product: __conform__ in {absent, returns None, returns value (plain method, staticmethod, function / functools.partial / callable object in the instance dict), body raises '
          'ValueError/TypeError/AttributeError/KeyError, attribute access raises AttributeError / RuntimeError} x provided in '
          '{no, via class, directly} x every hook list of length <= 2 (quick) / <= 3 (thorough) over {returns None, returns value, '
          'raises} x alternate in {absent, given, None} x custom __adapt__ in {none} + {own, inherited, inherited via a class that '
@@ -352,7 +353,7 @@ def _c11_jobs(tier):
 
 PLANS['C11'] = dict(
     engine='reent', level='fault_enumeration', jobs=_c11_jobs,
-    minimums=lambda t: {'cells_reached': 1500, 'audited_dicts': 500, 'leak_scenarios': 30, 'thread_lookups': 20000,
+    minimums=lambda t: {'cells_reached': 3000, 'audited_dicts': 1000, 'warm[hit]': 1000, 'leak_scenarios': 30, 'thread_lookups': 20000,
                         'thread_mutations': 200, 'subrace_probes': 1000},
     rule='Fault model = callback points (every place where foreign Python code can run while a lookup is on the stack: lazy '
          'required, provided/name/required __hash__/__eq__/__bool__, overridden _uncached_* at entry and exit, spec weakref/'
